@@ -99,3 +99,30 @@ def borrow_after(vc):
         vc.check('replaced/old-connection-untouched', old.in_flight == 3)
     else:
         vc.check('pending/old-connection-still-usable', kind == 'ok' and r[0] is old and old.in_flight == 4)
+
+
+@harness('C13', '_on_timeout-threshold', functions=['cassandra.cluster.ResponseFuture._on_timeout'], native='contracts.native.c13:replay')
+def threshold(vc):
+    """the timeout that orphans a stream (a connection in any INV-ID state, any threshold, flag already raised or not): ensures the replacement flag is raised
+    exactly when the orphan count reaches the threshold and is STICKY - a later timeout below the threshold (late responses have shrunk the orphan set while the
+    replacement is still connecting) must not lower it, or _replace finds the flag down and neither trashes nor closes the overloaded connection"""
+    from contracts import c09_stream_ids as C9
+    from contracts import rf_common as R
+    conn, st = C9._conn(vc)
+    h1 = R.Host('h1')
+    world = R.World(vc, [h1])
+    session = R.Session(world, 4)
+    fut = R.make_future(vc, world, session, [])
+    was = vc.choice('flag_already_raised', [False, True])
+    conn.attrs['orphaned_threshold_reached'] = was
+    T = conn.attrs['orphaned_threshold']
+    vc.assume(T >= 1)
+    fut.attrs['_connection'], fut.attrs['_req_id'], fut.attrs['_current_host'] = conn, st['k1'], h1
+    vc.call('cassandra.cluster.ResponseFuture._on_timeout', fut)
+    n = len(conn.attrs['orphaned_request_ids'].items)
+    vc.check('post/stream-orphaned', n == 2)
+    flag = conn.attrs['orphaned_threshold_reached']
+    reached = vc.ctx.branch((T <= n).t)
+    vc.check('post/flag-raised-iff-threshold-reached-or-raised-before', flag is True if (was or reached) else flag is False)
+    if was:
+        vc.check('sticky/never-lowered', flag is True)
